@@ -179,3 +179,44 @@ def run_parameters(ctx, model, shapes: List[str]) -> Tuple[List[str], int]:
         except InterpRaise as e:
             problems.append(f"`{{:lbl}}` raises {e.kind}")
     return problems, n
+
+
+def allowed_error_kinds(ctx) -> set:
+    """Names of the library's parsing/tokenizing exception classes (transitively), plus ValueError."""
+    tree = ctx.repo.modules[EXC].tree
+    bases = {st.name: [ast.unparse(b) for b in st.bases] for st in tree.body if isinstance(st, ast.ClassDef)}
+    ok = {"ValueError"}
+    changed = True
+    roots = {"ParsingError", "TokenizingError"}
+    ok |= roots & set(bases)
+    while changed:
+        changed = False
+        for n, bs in bases.items():
+            if n not in ok and any(b in ok - {"ValueError"} for b in bs):
+                ok.add(n)
+                changed = True
+    return ok
+
+
+def run_param_malformed(ctx, model, max_len: int = 4):
+    """Every token sequence up to max_len over the token kinds that can follow `key = value` is fed to Parser.param: it must
+    return or raise one of the library's parsing errors / ValueError — never an IndexError, TypeError, KeyError, …"""
+    toks, g, methods = build(ctx, model)
+    T = lambda name, v=None: toks[name](v)
+    allowed = allowed_error_kinds(ctx)
+    alphabet = [lambda: T("ForwardSlash", "/"), lambda: T("Number", 2.0), lambda: T("Percent", "%"), lambda: T("Identifier", "inf"), lambda: T("Identifier", "x"),
+                lambda: T("Comma", ","), lambda: T("RCurly", "}"), lambda: T("Colon", ":"), lambda: T("Equals", "=")]
+    fi = methods["param"]
+    n = 0
+    bad = None
+    for L in range(0, max_len + 1):
+        for combo in itertools.product(range(len(alphabet)), repeat=L):
+            n += 1
+            stream = [T("Number", 5.0)] + [alphabet[i]() for i in combo]
+            me = Obj(Mini(g), methods, {"_tokens": list(stream), "_stack": [], "_valid_elements": {}})
+            try:
+                Mini(g).call_bound(fi, me, (Element, T("Identifier", "A")), {})
+            except InterpRaise as e:
+                if e.kind not in allowed and bad is None:
+                    bad = (" ".join(repr(t) for t in stream), e.kind)
+    return bad, n
